@@ -86,12 +86,12 @@ Definition schema_unitarray : schema :=
    [[117; 110; 105; 116; 115]]   (* units *)].
 
 Definition schema_trajectory : schema :=
-  [[[101; 110; 103; 105; 110; 101; 95; 100; 101; 115; 99; 114; 105; 112; 116; 105; 111; 110]]   (* engine_description *);
+  [[[99; 103; 109; 97; 112]]   (* cgmap *);
+   [[100; 97; 116; 97]]   (* data *);
+   [[101; 110; 103; 105; 110; 101; 95; 100; 101; 115; 99; 114; 105; 112; 116; 105; 111; 110]]   (* engine_description *);
    [[101; 110; 103; 105; 110; 101; 95; 111; 112; 116; 105; 111; 110]]   (* engine_option *);
-   [[99; 103; 109; 97; 112]]   (* cgmap *);
    [[115; 99; 114; 105; 112; 116]]   (* script *);
    [[115; 121; 115; 116; 101; 109]]   (* system *);
-   [[100; 97; 116; 97]]   (* data *);
    [[116; 95; 115; 97; 109; 112; 108; 101]]   (* t_sample *)].
 
 Definition writer_species : list str := [[108; 97; 98; 101; 108]; [68]; [100; 101; 110; 115; 105; 116; 121]; [99; 104; 115; 116; 116]; [117; 110; 105; 116; 115]].   (* label D density chstt units *)
@@ -144,7 +144,7 @@ Definition uses_unitsdimensions : list str := [[115; 112; 97; 99; 101]; [116; 10
 
 Definition uses_unitarray : list str := [[118; 97; 108; 117; 101]; [117; 110; 105; 116; 115]].   (* value units *)
 
-Definition uses_trajectory : list str := [[101; 110; 103; 105; 110; 101; 95; 100; 101; 115; 99; 114; 105; 112; 116; 105; 111; 110]; [101; 110; 103; 105; 110; 101; 95; 111; 112; 116; 105; 111; 110]; [99; 103; 109; 97; 112]; [115; 99; 114; 105; 112; 116]; [115; 121; 115; 116; 101; 109]; [100; 97; 116; 97]; [116; 95; 115; 97; 109; 112; 108; 101]].   (* engine_description engine_option cgmap script system data t_sample *)
+Definition uses_trajectory : list str := [[99; 103; 109; 97; 112]; [100; 97; 116; 97]; [101; 110; 103; 105; 110; 101; 95; 100; 101; 115; 99; 114; 105; 112; 116; 105; 111; 110]; [101; 110; 103; 105; 110; 101; 95; 111; 112; 116; 105; 111; 110]; [115; 99; 114; 105; 112; 116]; [115; 121; 115; 116; 101; 109]; [116; 95; 115; 97; 109; 112; 108; 101]].   (* cgmap data engine_description engine_option script system t_sample *)
 
 Definition dispatch_keys : list str := [[116; 121; 112; 101]].   (* read by rdspace_from_dict before a space reader is entered: type *)
 
